@@ -228,7 +228,7 @@ func TestC02(t *testing.T) {
 	if err != nil {
 		t.Fatal(err)
 	}
-	pick := pickMsgs(vh.Sub(seed, "c02-msgs"), all, vh.Pick(40, 0))
+	pick := pickMsgs(vh.Sub(seed, "c02-msgs"), all, vh.Pick(120, 0))
 	// always include the largest messages (255-byte payloads) and a single-field one
 	for _, mi := range all {
 		if mi.Layout.SizeExt == 255 || mi.Layout.SizeBase == 255 {
@@ -242,7 +242,7 @@ func TestC02(t *testing.T) {
 	}
 	rep.Set("message_types", len(genv.layouts))
 	r := vh.Sub(seed, "c02-gate")
-	nRandomDamage := vh.Pick(60, 400)
+	nRandomDamage := vh.Pick(120, 400)
 	sampleEvery := 0
 
 	runStream := func(mi *msgInfo, class string, stream []byte, damagedLen int) {
